@@ -87,7 +87,7 @@ def requirements(tier):
         "steps-recomputed:dopri54": 3000, "order-observed:euler": 60, "order-observed:rk4": 20,
         "adaptive-accepted-steps-checked": 5000, "adaptive:target-within-8-steps": 20, "adaptive-reduced-steps": 100, "adaptive-global-checked": 60,
         "energy-drift-order:euler": 60, "energy-drift-order:rk4": 60, "drift-adaptive-checked": 60,
-        "leap:judged": 20, "leap:label:TAI": 4, "leap:label:TT": 4, "leap:label:UTC": 8, "api:pairs-compared": 300, "api:reconfigured-instance": 30, "api:target-just-short-of-a-node": 15, "api:same-target-other-state": 30, "api:vs-truth": 150, "api:backward-propagate": 20, "api:forward-propagate": 50,
+        "leap:judged": 20, "leap:label:TAI": 4, "leap:label:TT": 4, "leap:label:UTC": 8, "api:pairs-compared": 300, "api:reconfigured-instance": 30, "api:target-just-short-of-a-node": 15, "api:same-target-other-state": 30, "api:orbit-re-expressed-in-place": 15, "api:vs-truth": 150, "api:backward-propagate": 20, "api:forward-propagate": 50,
         "api:iter": 100, "api:ephem": 50, "api:arg:Date": 30, "api:arg:timedelta": 30,
         "direction:forward": 50, "direction:backward": 50, "stage-dates-recorded": 1000,
     }
@@ -870,6 +870,42 @@ def case_api(ctx, job, idx, rng, st, o, date0):
                     ctx.resid("api:same-target-other-state:no-integration:pos", dpS, 4 * al[0] + 1e-3, key="C06/state-of-an-earlier-request-returned-for-another-initial-state",
                               witness=dict(WS, result=outS.tolist(), truth_r=rtb.tolist()),
                               msg=f"{mode}: no integration step was taken for the second request and its result is {dpS!r} m from the two-body solution of the second state")
+
+    # ---- history: the same Orbit object, propagated once, then RE-EXPRESSED in place (another form, another frame: the same
+    # point of space-time), then propagated again: the same trajectory
+    if idx % 4 == 3:
+        how = ("form", "frame-inertial", "frame-rotating", "form-and-back")[(idx // 4) % 4]
+        WR = dict(W, history=f"propagate(target), then the orbit re-expressed in place ({how}), then propagate(target) again")
+        orbR = make_orbit(o, date0, h, method, tol, rng, st)
+        try:
+            _r1, logA = run_logged(st, lambda: orbR.propagate(arg))
+            if how == "form":
+                orbR.form = rng.choice(["keplerian", "spherical", "equinoctial"])
+            elif how == "frame-inertial":
+                orbR.frame = rng.choice(["MOD", "TEME", "G50"])
+            elif how == "frame-rotating":
+                orbR.frame = "ITRF"
+            else:
+                orbR.form = "keplerian_mean"
+                orbR.form = "cartesian"
+            resR, logR = run_logged(st, lambda: orbR.propagate(arg))
+            outR = probe.arr(resR.copy(form="cartesian", frame="EME2000"))
+        except Exception as exc:
+            ctx.violation("C06/propagate-raises-after-the-orbit-was-re-expressed", dict(WR, exc=repr(exc)), f"{how}: {exc!r}")
+            logA = None
+        if logA:
+            ctx.count("api:orbit-re-expressed-in-place")
+            tsA, ysA = chain_nodes(split_chains(logA)[0])
+            al = interpolation_allowance(st, y0, 0, tsA, ysA, us(t), method in rk_ref.ADAPTIVE)
+            rtR, vtR, *_ = tb.propagate_uv(y0[:3], y0[3:], t, mu)
+            dpR = norm(outR[:3] - rtR) if np.all(np.isfinite(outR)) else float("nan")
+            if al is not None:
+                # allowance of the first chain (same settings, same state up to the rounding of the re-expression: 1e-9 relative,
+                # amplified along the arc like any initial-state error)
+                extra = 1e-9 * norm(y0[:3]) * growth(o, t, mu)
+                ctx.resid("api:orbit-re-expressed-in-place:pos", dpR, 4 * al[0] + extra + 1e-3, key="C06/trajectory-changes-when-the-orbit-is-re-expressed-in-place",
+                          witness=dict(WR, result_in_EME2000=outR.tolist(), truth_r=rtR.tolist(), first_input_of_second_run=(logR[0]["y"].tolist() if logR else None)),
+                          msg=f"{how}: after the orbit was re-expressed in place the result is {dpR!r} m from the two-body solution")
 
     # ---- pairwise: the state returned for that date does not depend on the request pattern ----------
     names = sorted(results)
